@@ -98,11 +98,16 @@ class Contract:
             return NodeVal.symbolic(nm)
         if tc == 'nodevec':
             vec = NodeVec.symbolic(nm)
+            st.facts.append(vec.len >= 0)
             return Ptr(st.alloc(vec))
         if tc == 'objvec':
-            return Ptr(st.alloc(ScalarVec.symbolic(nm, Ref)))
+            vec = ScalarVec.symbolic(nm, Ref)
+            st.facts.append(vec.len >= 0)
+            return Ptr(st.alloc(vec))
         if tc == 'intvec':
-            return Ptr(st.alloc(ScalarVec.symbolic(nm, Int)))
+            vec = ScalarVec.symbolic(nm, Int)
+            st.facts.append(vec.len >= 0)
+            return Ptr(st.alloc(vec))
         if tc.startswith('other:std::optional<') and 'Node' in tc:
             return self.optional_node(eng, st, p)
         if tc.startswith('other:'):
